@@ -46,6 +46,7 @@ UNMODELLED = [
     "struct definitions and their generated methods (real-engine tie only)",
     "GlobalConstId / GuppyObjectId / ExistentialVar counters (inventoried by counters_classified; observed not to reach the Hugr)",
     "DEF_STORE.sources, emulate() (no emulator for /repo output)",
+    "state the inventory scanner cannot see: setattr/__dict__, function attributes, closures, instances made by factory functions, C-level caches (linecache, sys.modules), other packages (hugr)",
     "redefinition between operations is modelled only as 'the pool changes' (vsys): the model has no notion of source text, file names or line numbers; caches keyed by them are excluded by the inventory session_globals_classified and searched for by the edited-file run",
     "the types_to_check_worklist and the exact interleaving of on-demand checks during tracing",
 ]
@@ -68,9 +69,13 @@ MANIFEST = {
     "nested functions; tracing state not restored; block-port order depending on the session's %tmp counter: "
     "compile_history_free_false_for_name_order is the kernel-checked counter-history for the pre-fix configuration). "
     "compile_version_history_free: the same for histories of operations on ANY earlier versions of the definitions (the program "
-    "text changes between operations), on the premise that the model's State is all that survives — re-checked by the "
-    "regenerated inventories session_globals_classified (module-level containers mutated from functions, functools.cache memo "
-    "tables), counters_classified and reset_clears_all_caches; position_keyed_source_cache_observable shows what a source cache "
+    "text changes between operations), on the ASSUMPTION that the model's State is all that survives; syntactic "
+    "tripwires for it are the regenerated inventories session_globals_classified (over guppylang_internals and guppylang: "
+    "module/class-level containers mutated from functions, functools.cache memo tables, container attributes of module-level "
+    "instances such as DEF_STORE.* and ENGINE.*, ContextVars, `global` rebinding, class-attribute stores / monkey patches, mutable "
+    "default arguments — each entry classified with a reason in sessionGlobalsClassified; DEF_STORE.sources (keyed by file name), "
+    "DEF_STORE.impls and the Hugr.add_node patch are NOT modelled and rest on the differential runs), counters_classified and "
+    "reset_clears_all_caches; position_keyed_source_cache_observable shows what a source cache "
     "keyed by position would do. "
     "What only the search covers: that the real engine behaves like the model — checked on every run by running the same random "
     "operation sequence on the real engine and the model and comparing per-operation state projections, and by comparing every "
